@@ -933,6 +933,37 @@ func writeKeyFacts(root, outPath string) {
 		})
 		fmt.Fprintf(&o, "def paramPairs_%s : List (String × String × String) := [\n%s]\n\n", mod, strings.Join(prow, ",\n"))
 	}
+	// helper copies: functions that exist twice (a client-side copy and the one the harness evaluates against the
+	// model on every path record) must be the same code, or comparing one says nothing about the other
+	clones := [][4]string{
+		{"x/filetree/client/cli/utils.go", "merkleHelper", "x/filetree/types/test_helpers.go", "MerkleHelper"},
+		{"x/filetree/keeper/access.go", "MakeOwnerAddress", "x/filetree/types/test_helpers.go", "MakeOwnerAddress"},
+	}
+	normBody := func(file, fn string) string {
+		f, err := parser.ParseFile(fset, filepath.Join(root, file), nil, 0)
+		if err != nil {
+			fail("%v", err)
+		}
+		for _, d := range f.Decls {
+			if fd, ok := d.(*ast.FuncDecl); ok && fd.Name.Name == fn && fd.Recv == nil && fd.Body != nil {
+				var b bytes.Buffer
+				printer.Fprint(&b, fset, fd.Type)
+				printer.Fprint(&b, fset, fd.Body)
+				t := b.String()
+				for _, q := range []string{"filetypes.", "types."} { // the package qualifier of the sibling package
+					t = strings.ReplaceAll(t, q, "")
+				}
+				return strings.Join(strings.Fields(t), " ")
+			}
+		}
+		fail("helper %s not found in %s", fn, file)
+		return ""
+	}
+	var crow []string
+	for _, c := range clones {
+		crow = append(crow, fmt.Sprintf("  (%q, %q, %v)", c[0]+":"+c[1], c[2]+":"+c[3], normBody(c[0], c[1]) == normBody(c[2], c[3])))
+	}
+	fmt.Fprintf(&o, "/-- copies of one helper: (copy, the one compared with the model, same code modulo the package qualifier) -/\ndef helperClones : List (String × String × Bool) := [\n%s]\n\n", strings.Join(crow, ",\n"))
 	o.WriteString("/- the declarations the fingerprints were taken from:\n")
 	o.WriteString(strings.ReplaceAll(doc.String(), "-/", "- /"))
 	o.WriteString("-/\n\nend Canine.Generated\n")
